@@ -261,8 +261,8 @@ func (su *Summarize) Transform() Query {
 	if _, ok := src.(*Nothing); ok {
 		return NewNothing(su)
 	}
-	if p, ok := src.(*Project); ok && p.unique {
-		// remove project-copy
+	if p, ok := src.(*Project); ok && p.unique && !su.wholeRow {
+		// remove project-copy (wholeRow would get the removed columns)
 		return NewSummarize(p.source, su.hint, su.by, su.cols, su.ops, su.ons)
 	}
 	if src != su.source {
